@@ -3,7 +3,7 @@ import itertools
 
 from hypothesis import strategies as st
 
-from .. import cachesim, lin
+from .. import cachesim, env, lin
 from ..hyp import run_given
 
 LEVEL = 'exploration'
@@ -152,6 +152,8 @@ def judge(ctx, case, run, bad, spec=None, prefix='C02'):
 
 
 def execute(ctx, case):
+  if case.get('cold'):
+    return execute_cold(ctx, case)
   bad = []
   run = cachesim.run_case(case, on_point=size_invariant(ctx, case, bad))
   spec = None
@@ -258,7 +260,86 @@ def enumerate_single(ctx, fn, extra=None, workloads=None):
   ctx.extra['single_preemption_runs'] = ctx.extra.get('single_preemption_runs', 0) + total
 
 
+def execute_cold(ctx, case):
+  """A fresh process: nothing has asked for the cache singleton yet except what the pipeline set-up did.  The
+  receiving thread feeds datapoints through the write processor while the writer thread makes its first pass
+  through the real MetricCache() factory; every placement of one preemption.  Conservation: every stored datapoint
+  is handed out by exactly one drain (during the run or when the cache is drained to exhaustion afterwards)."""
+  from ..sched import Sched, install_threading_shim
+  b = env.bootstrap()
+  cachemod = b.cache
+  stores = case['stores']
+  k = 0
+  steps = None
+  while True:
+    k += 1
+    if steps is not None and k > steps + 2:
+      break
+    env.reset(CACHE_WRITE_STRATEGY=case['strategy'])
+    cachemod._Cache = None
+    sched = Sched([[k, 1]], [cachemod.__file__], start=cachesim.T0)
+    saved_time = cachemod.time
+    cachemod.time = sched.time
+    unshim = install_threading_shim(sched, [cachemod])
+    try:
+      proc = env.need(cachemod, 'CacheFeedingProcessor')()      # built by the pipeline set-up, before any thread runs
+      drained = []
+
+      def receiver():
+        for m, t, v in stores:
+          proc.process(m, (t, v))
+
+      def writer():
+        for _ in range(case['drains']):
+          m, pts = cachemod.MetricCache().drain_metric()
+          if m is not None:
+            drained.extend((m, p[0], p[1]) for p in pts)
+      sched.spawn('recv', receiver)
+      sched.spawn('writer', writer)
+      sched.run(case['first'])
+      for t in sched.threads:
+        if t.exc is not None:
+          ctx.fail('C02:cold-start-raised:%s' % type(t.exc).__name__, 'first use of the cache from two threads raised %r' % (t.exc,), dict(case, preempt_at=k))
+          return
+      if sched.aborted:
+        ctx.fail('C02:%s' % sched.aborted, 'cold start aborted: %s' % sched.aborted, dict(case, preempt_at=k))
+        return
+      if steps is None:
+        steps = sched.steps
+      cache = cachemod.MetricCache()
+      for _ in range(len(stores) + 3):
+        m, pts = cache.drain_metric()
+        if m is None:
+          break
+        drained.extend((m, p[0], p[1]) for p in pts)
+      want = sorted((m, float(t), v) for m, t, v in stores)
+      got = sorted((m, float(t), v) for m, t, v in drained)
+      if got != want:
+        ctx.fail('C02:lost-or-duplicated-at-first-use',
+                 'strategy %s, preemption at step %d of the first use of the cache: stored %r, handed out by drains %r (a datapoint '
+                 'accepted by the pipeline is neither queryable nor ever drained, or drained twice)' % (case['strategy'], k, want, got),
+                 dict(case, preempt_at=k), 'conservation')
+        return
+      ctx.evaluations += 1
+    finally:
+      unshim()
+      cachemod.time = saved_time
+      cachemod._Cache = None
+  ctx.note(case, nontrivial=True, classes=['cold start through the singleton factory', case['strategy']],
+           key=['cold', case['strategy'], case['first'], case['drains']])
+
+
+def cold_cases(ctx):
+  for strategy in (('sorted', 'max') if ctx.quick else cachesim.STRATEGIES):
+    for first in (0, 1):
+      yield {'cold': True, 'strategy': strategy, 'first': first, 'drains': 2,
+             'stores': [['a', 1, 10.0], ['b', 1, 11.0], ['a', 2, 12.0]]}
+
+
 def run(ctx):
+  if (ctx.shard or 0) == 0:
+    for case in cold_cases(ctx):
+      execute_cold(ctx, case)
   if (ctx.shard or 0) == 0:
     enumerate_single(ctx, execute)
     enumerate_prefilled(ctx, execute)
